@@ -18,7 +18,7 @@ for name in sorted(os.listdir(f"{V}/seeded")):
     meta = json.load(open(f"{d}/meta.json"))
     if meta.get("retired"):
         continue
-    targets = checks_for.get(name) or [meta["property"]]
+    targets = [meta["property"]] if os.environ.get("MATRIX_TAG") else (checks_for.get(name) or [meta["property"]])
     targets = [t for t in targets if t in claimed]
     r = subprocess.run(["git", "-C", WT, "apply", f"{d}/patch.diff"], capture_output=True, text=True)
     if r.returncode != 0:
@@ -33,8 +33,12 @@ for name in sorted(os.listdir(f"{V}/seeded")):
             det[t] = {"exit": p.returncode, "violations": len(lines), "kinds": sorted(set(kinds))}
     finally:
         subprocess.run(["git", "-C", WT, "checkout", "--", "."], check=True)
-    meta["detected_by"] = {t: v for t, v in det.items() if v["exit"] != 0}
-    meta["checks_run"] = det
+    tag = os.environ.get("MATRIX_TAG")      # e.g. "seed7": an additional run under another VERIF_SEED, recorded beside the main verdict
+    if tag:
+        meta.setdefault("other_runs", {})[tag] = {t: v["exit"] for t, v in det.items()}
+    else:
+        meta["detected_by"] = {t: v for t, v in det.items() if v["exit"] != 0}
+        meta["checks_run"] = det
     json.dump(meta, open(f"{d}/meta.json", "w"), indent=1)
     rows.append((name, meta["property"], "", det))
 subprocess.run(["git", "-C", "/repo", "worktree", "remove", "--force", WT], capture_output=True)
